@@ -43,6 +43,16 @@ def _name(cn):
     return x509.Name([x509.NameAttribute(x509.NameOID.COMMON_NAME, cn)])
 
 
+def _san(cn):
+    """subject alternative name entry: an iPAddress for an IP literal, a dNSName otherwise"""
+    import ipaddress
+
+    try:
+        return x509.IPAddress(ipaddress.ip_address(cn))
+    except ValueError:
+        return x509.DNSName(cn)
+
+
 class Pki:
     def __init__(self):
         self._keys = {}
@@ -132,7 +142,7 @@ class Pki:
             .serial_number(x509.random_serial_number())
             .not_valid_before(nb)
             .not_valid_after(na)
-            .add_extension(x509.SubjectAlternativeName([x509.DNSName(subject_cn)]), critical=False)
+            .add_extension(x509.SubjectAlternativeName([_san(subject_cn)]), critical=False)
             .sign(issuer_key, _sign_hash(issuer_key))
         )
         self._leaf[ck] = (cert, key)
